@@ -43,6 +43,7 @@ from sqlalchemy.orm import DeclarativeBase
 from sqlalchemy.orm import Session
 from sqlalchemy.orm import attributes
 from sqlalchemy.orm import mapped_column
+from sqlalchemy.orm import with_loader_criteria
 from sqlalchemy.pool import StaticPool
 
 
@@ -57,6 +58,21 @@ class R(Base):
     b = mapped_column(Integer)
     s = mapped_column(String)
 
+
+class RN(Base):
+    """same shape and rows as R, but Table(implicit_returning=False): synchronize_session='fetch'
+    then has to pre-SELECT the matching primary keys instead of using RETURNING"""
+
+    __tablename__ = "rn"
+    __table_args__ = {"implicit_returning": False}
+    id = mapped_column(Integer, primary_key=True, autoincrement=False)
+    a = mapped_column(Integer)
+    b = mapped_column(Integer)
+    s = mapped_column(String)
+
+
+ENTITIES = {"R": R, "RN": RN}
+CUR = [R]  # entity the case being run is about (set by run_case)
 
 A_DOM = (None, -7, -1, 0, 2, 3)
 S_DOM = (None, "", "a%", "ab")
@@ -79,6 +95,7 @@ def engine():
         Base.metadata.create_all(e)
         with e.begin() as c:
             c.execute(insert(R.__table__), ROWS)
+            c.execute(insert(RN.__table__), ROWS)
         _ENGINE = e
     return _ENGINE
 
@@ -112,7 +129,7 @@ def _build(t, P):
 
     k = t[0]
     if k == "col":
-        return getattr(R, t[1])
+        return getattr(CUR[0], t[1])
     if k in ("par", "pard"):
         name = "p%d" % len(P)
         v = t[-1]
@@ -424,9 +441,9 @@ def prepare(sess, variant):
     """load objects / perturb them according to the variant; returns the object list.
     The perturbation is a fixed function of the primary key (no randomness)."""
     if variant == "partial_load":
-        objs = sess.scalars(select(R).where(R.id % 3 != 0).order_by(R.id)).all()
+        objs = sess.scalars(select(CUR[0]).where(CUR[0].id % 3 != 0).order_by(CUR[0].id)).all()
     else:
-        objs = sess.scalars(select(R).order_by(R.id)).all()
+        objs = sess.scalars(select(CUR[0]).order_by(CUR[0].id)).all()
     if variant == "expired":
         for o in objs:
             i = o.id
@@ -463,16 +480,31 @@ def prepare(sess, variant):
 SCALAR = (int, float, str, type(None))
 
 
-def make_stmt(kind, crit, setc, returning, params):
+def narrowing(ent):
+    """the extra entity criterion used with with_loader_criteria(): excludes rows (b NULL or
+    negative) that a WHERE clause alone may well match"""
+    return ent.b >= 0
+
+
+def make_stmt(kind, crit, setc, returning, params, opt=None):
+    E = CUR[0]
     if kind == "update":
-        st = update(R)
-        st = st.values({getattr(R, k): build(v, params) for k, v in setc.items()})
+        st = update(E)
+        st = st.values({getattr(E, k): build(v, params) for k, v in setc.items()})
     else:
-        st = delete(R)
+        st = delete(E)
     if crit is not None:
         st = st.where(build(crit, params))
     if returning:
-        st = st.returning(R.id)
+        st = st.returning(E.id)
+    if opt == "wlc_lambda":
+        st = st.options(with_loader_criteria(E, lambda cls: cls.b >= 0))
+    elif opt == "wlc_plain":
+        st = st.options(with_loader_criteria(E, narrowing(E)))
+    elif opt == "populate_existing":
+        st = st.execution_options(populate_existing=True)
+        if E is R:
+            st = st.returning(E)  # the documented use: RETURNING entities refreshed in place
     return st
 
 
@@ -582,11 +614,15 @@ def run_bulk_case(case):
             conn.rollback()
 
 
-def _matched(conn, crit, before):
-    if crit is None:
-        return set(before)
+def _matched(conn, crit, before, opt=None):
+    E = CUR[0]
     P = {}
-    return set(conn.execute(select(R.__table__.c.id).where(build(crit, P)), P).scalars())
+    st = select(E.__table__.c.id)
+    if crit is not None:
+        st = st.where(build(crit, P))
+    if opt in ("wlc_lambda", "wlc_plain"):
+        st = st.where(narrowing(E))
+    return set(conn.execute(st, P).scalars())
 
 
 def run_case(case):
@@ -597,11 +633,13 @@ def run_case(case):
     kind, crit, setc = case["kind"], case.get("crit"), case.get("set") or {}
     sync, variant = case["sync"], case.get("variant", "clean")
     returning, route = case.get("returning", False), case.get("route", "execute")
+    opt, hint = case.get("opt"), case.get("hint")
     eng = engine()
     problems = []
     info = {}
     with eng.connect() as conn:
         sess = Session(conn)
+        CUR[0] = ENTITIES[case.get("entity", "R")]
         try:
             objs = prepare(sess, variant)
             noflush = variant == "pending_noflush"
@@ -616,16 +654,16 @@ def run_case(case):
                 # in a scratch transaction by an explicit flush (the real run below relies
                 # on the statement's own autoflush)
                 sess.flush()
-                before = {r[0]: tuple(r[1:]) for r in conn.execute(select(R.__table__)).all()}
-                matched = _matched(conn, crit, before)
+                before = {r[0]: tuple(r[1:]) for r in conn.execute(select(CUR[0].__table__)).all()}
+                matched = _matched(conn, crit, before, opt)
                 sess.close()
                 conn.rollback()
                 sess = Session(conn)
                 objs = prepare(sess, variant)
             else:
-                before = {r[0]: tuple(r[1:]) for r in conn.execute(select(R.__table__)).all()}
+                before = {r[0]: tuple(r[1:]) for r in conn.execute(select(CUR[0].__table__)).all()}
                 try:
-                    matched = _matched(conn, crit, before)
+                    matched = _matched(conn, crit, before, opt)
                 except sa_exc.DBAPIError:  # the database itself rejects the criterion: not a case
                     info["outcome"] = "db-rejects"
                     return dict(problems=[], info=info)
@@ -634,29 +672,36 @@ def run_case(case):
             opts = {"synchronize_session": sync}
             if noflush:
                 opts["autoflush"] = False
+            if hint:
+                opts[hint] = True  # is_delete_using / is_update_from: no RETURNING, pre-SELECT instead
             exc = None
             res_ids = None
             try:
                 P = {}
                 if route == "query":
-                    q = sess.query(R)
+                    q = sess.query(CUR[0])
                     if crit is not None:
                         q = q.filter(build(crit, P))
                     if noflush:
                         q = q.execution_options(autoflush=False)
                     if kind == "update":
-                        vals = {getattr(R, k): build(v, P) for k, v in setc.items()}
+                        vals = {getattr(CUR[0], k): build(v, P) for k, v in setc.items()}
                         q.params(**P).update(vals, synchronize_session=sync)
                     else:
                         q.params(**P).delete(synchronize_session=sync)
                 else:
-                    stmt = make_stmt(kind, crit, setc, returning, P)
+                    stmt = make_stmt(kind, crit, setc, returning, P, opt)
                     res = sess.execute(stmt, P, execution_options=opts)
                     if returning:
                         res_ids = sorted(r[0] for r in res.all())
+                    elif opt == "populate_existing" and CUR[0] is R:
+                        got = res.scalars().all()  # populate_existing + RETURNING entity
+                        res_ids = sorted(attributes.instance_state(o).key[1][0] for o in got)
+                        if res_ids != sorted(matched):
+                            problems.append(("returning-mismatch", "RETURNING entities gave ids %r, the database matched %r" % (res_ids[:8], sorted(matched)[:8]), None, None))
             except Exception as e:  # noqa
                 exc = e
-            after = {r[0]: tuple(r[1:]) for r in conn.execute(select(R.__table__)).all()}
+            after = {r[0]: tuple(r[1:]) for r in conn.execute(select(CUR[0].__table__)).all()}
             info["matched"] = len(matched)
             info["changed"] = sum(1 for k in before if after.get(k) != before[k])
             if exc is not None:
@@ -686,6 +731,7 @@ def run_case(case):
             problems += _compare(objs, before, after, matched, pending)
             return dict(problems=problems, info=info, before=before)
         finally:
+            CUR[0] = R
             sess.close()
             conn.rollback()
 
@@ -751,7 +797,13 @@ def _eval_both(t, pk):
             except sa_exc.DBAPIError as e:
                 sqlv = e
             try:
-                fn = evaluator._EvaluatorCompiler(R).process(build(t))
+                P2 = {}
+                expr2 = build(t, P2)
+                try:
+                    comp = evaluator._EvaluatorCompiler(R, P2)  # execution-time parameter values
+                except TypeError:
+                    comp = evaluator._EvaluatorCompiler(R)
+                fn = comp.process(expr2)
             except evaluator.UnevaluatableError:
                 return "UNEVALUATABLE", sqlv
             try:
@@ -887,7 +939,8 @@ def describe(case):
     return "%s WHERE %s%s sync=%r variant=%s%s%s" % (
         case["kind"].upper(), show(crit) if crit is not None else "<all rows>",
         (" SET " + show_set(setc)) if case["kind"] == "update" else "", case["sync"], case.get("variant", "clean"),
-        " RETURNING" if case.get("returning") else "", " via Query" if case.get("route") == "query" else "")
+        " RETURNING" if case.get("returning") else "", " via Query" if case.get("route") == "query" else "") + "".join(
+        " %s=%s" % (k, case[k]) for k in ("entity", "hint", "opt") if case.get(k) and case.get(k) != "R")
 
 
 def diagnose(case, result):
@@ -901,7 +954,9 @@ def diagnose(case, result):
     desc = describe(case)
     # deviation from a base case: if the base case already fails, that is the cause
     base = None
-    if case.get("returning") or case.get("route", "execute") != "execute":
+    if case.get("entity", "R") != "R" or case.get("hint") or case.get("opt"):
+        base = {k: v for k, v in case.items() if k not in ("entity", "hint", "opt")}
+    elif case.get("returning") or case.get("route", "execute") != "execute":
         base = dict(case, returning=False, route="execute")
     elif variant != "clean":
         base = dict(case, variant="clean")
@@ -948,7 +1003,8 @@ def diagnose(case, result):
                 out.append((kind, sig, "%s\n  %s\n  root cause sub-tree %s on row id=%s %r: python %s, database %s" % (desc, detail, show(sub), pk, BASE.get(pk), _fmt(pyv), _fmt(sqlv))))
             else:
                 marker = "SET source reads a column assigned by the same statement" if _assigned_read(setc) and sym == "stale-attr" else ""
-                kind = ("sync", sym, case["kind"], marker or variant, bool(case.get("returning")), case.get("route", "execute"))
+                kind = ("sync", sym, case["kind"], marker or variant, bool(case.get("returning")), case.get("route", "execute"),
+                        case.get("entity", "R"), case.get("hint"), case.get("opt"))
                 if kind in seenk:
                     continue
                 seenk.add(kind)
